@@ -158,6 +158,50 @@ def rows_of_writer(name: str) -> List[Dict[str, Any]]:
     return rows
 
 
+def fold_constant(expr: ast.AST) -> Optional[str]:
+    """the text of a replacement field whose expression has no names and no calls (`'-' * 80`)"""
+    if any(isinstance(x, (ast.Name, ast.Call, ast.Attribute, ast.Subscript, ast.Lambda)) for x in ast.walk(expr)):
+        return None
+    try:
+        v = eval(compile(ast.Expression(expr), "<const>", "eval"), {"__builtins__": {}}, {})
+    except Exception:
+        return None
+    return v if isinstance(v, str) else None
+
+
+def header_of_writer(name: str) -> Optional[Dict[str, Any]]:
+    """the text `_get_header(...)` returns (written first by the Bernese writers): cells of the returned f-string;
+    replacement fields without format spec whose expression is a constant are folded into the literal text"""
+    tree = parse_file(REPO / "midgard" / "writers" / f"{name}.py")
+    for fn in ast.walk(tree):
+        if isinstance(fn, ast.FunctionDef) and fn.name == "_get_header":
+            for n in ast.walk(fn):
+                if isinstance(n, ast.Return) and n.value is not None:
+                    parts = flatten_concat(n.value)
+                    if parts is None:
+                        return None
+                    cells: List[Dict[str, Any]] = []
+                    for x in parts:
+                        if isinstance(x, ast.JoinedStr):
+                            for v in x.values:
+                                if isinstance(v, ast.FormattedValue) and v.format_spec is None and v.conversion == -1:
+                                    c = fold_constant(v.value)
+                                    if c is not None:
+                                        cells.append({"lit": c})
+                                        continue
+                                cells += cells_of_fstring(ast.JoinedStr(values=[v]))
+                        elif isinstance(x.value, str) and x.value:
+                            cells.append({"lit": x.value})
+                    merged: List[Dict[str, Any]] = []
+                    for c in cells:
+                        if "lit" in c and merged and "lit" in merged[-1]:
+                            merged[-1] = {"lit": merged[-1]["lit"] + c["lit"]}
+                        else:
+                            merged.append(c)
+                    return {"writer": name, "line": n.lineno, "cells": merged}
+    return None
+
+
 def const_tuple(e: ast.AST):
     try:
         return ast.literal_eval(e)
@@ -173,8 +217,10 @@ def parser_genfromtxt_table(name: str) -> Dict[str, Any]:
             if "delimiter" in kw and "names" in kw:
                 return {"names": list(const_tuple(kw["names"])), "delimiter": list(const_tuple(kw["delimiter"])),
                         "dtype": list(const_tuple(kw["dtype"])) if "dtype" in kw else [],
-                        "skip_header": const_tuple(kw["skip_header"]) if "skip_header" in kw else 0}
-    return {"names": [], "delimiter": [], "dtype": [], "skip_header": 0}
+                        "skip_header": const_tuple(kw["skip_header"]) if "skip_header" in kw else 0,
+                        "comments": const_tuple(kw["comments"]) if "comments" in kw else "#",
+                        "autostrip": bool(const_tuple(kw["autostrip"])) if "autostrip" in kw else False}
+    return {"names": [], "delimiter": [], "dtype": [], "skip_header": 0, "comments": "#", "autostrip": False}
 
 
 def sinex_fields(fn_name: str) -> List[Tuple[str, int]]:
@@ -268,6 +314,20 @@ def lean_cell(c: Dict[str, Any]) -> str:
     return f".fld {ls(c['name'])} ⟨{al}, {c['width']}, {pr}, {ty}⟩"
 
 
+def lean_dtype(d: str) -> str:
+    if d == "f8":
+        return ".f8"
+    if d[:1] == "U" and d[1:].isdigit():
+        return f".u {int(d[1:])}"
+    raise ValueError(f"dtype {d!r} of a genfromtxt parser is outside the model")
+
+
+def lean_char(c: str) -> str:
+    if len(c) != 1 or not c.isprintable() or c in "'\\":
+        raise ValueError(f"comment marker {c!r} of a genfromtxt parser is outside the model")
+    return f"'{c}'"
+
+
 def lean_list(items: List[str], indent: str = "  ") -> str:
     if not items:
         return "[]"
@@ -278,6 +338,7 @@ def generate() -> Tuple[str, Dict[str, Any]]:
     rows = []
     for w in WRITERS:
         rows += rows_of_writer(w)
+    headers = [h for h in (header_of_writer(w) for w in WRITERS) if h is not None]
     dts, dft, est, dup = data_types()
     crd = parser_genfromtxt_table("bernese_crd")
     clu = parser_genfromtxt_table("bernese_clu")
@@ -292,6 +353,9 @@ def generate() -> Tuple[str, Dict[str, Any]]:
     o.append("structure Row where\n  writer : String\n  line : Nat\n  cells : List Cell\n  deriving Repr\n")
     o.append("def rows : List Row := " + lean_list(
         [f"⟨{ls(r['writer'])}, {r['line']}, [{', '.join(lean_cell(c) for c in r['cells'])}]⟩" for r in rows]) + "\n")
+    o.append("/-- the text `_get_header(...)` of a writer returns (the first thing written), as cells -/\n"
+             "def headers : List Row := " + lean_list(
+        [f"⟨{ls(r['writer'])}, {r['line']}, [{', '.join(lean_cell(c) for c in r['cells'])}]⟩" for r in headers]) + "\n")
     o.append("/-- `DATA_TYPES` of writers/sinex_tms.py: the cell format of every TIMESERIES/DATA column -/\n"
              "def dataTypes : List (String × Spec) := " + lean_list(
         [f"({ls(k)}, ⟨{ {'': 'none', '<': 'some .left', '>': 'some .right'}[sp['align']] }, {sp['width']}, "
@@ -306,10 +370,16 @@ def generate() -> Tuple[str, Dict[str, Any]]:
         [f"({ls(k)}, [{', '.join(ls(x) for x in v)}])" for k, v in est]) + "\n")
     o.append("def crdParserNames : List String := " + lean_list([ls(x) for x in crd["names"]]))
     o.append(f"def crdParserWidths : List Nat := {crd['delimiter']}")
-    o.append(f"def crdParserSkipHeader : Nat := {crd['skip_header']}\n")
+    o.append(f"def crdParserSkipHeader : Nat := {crd['skip_header']}")
+    o.append("def crdParserDtypes : List Dtype := [" + ", ".join(lean_dtype(x) for x in crd["dtype"]) + "]")
+    o.append("def crdParserComment : Char := " + lean_char(crd["comments"]))
+    o.append("def crdParserAutostrip : Bool := " + str(crd["autostrip"]).lower() + "\n")
     o.append("def cluParserNames : List String := " + lean_list([ls(x) for x in clu["names"]]))
     o.append(f"def cluParserWidths : List Nat := {clu['delimiter']}")
-    o.append(f"def cluParserSkipHeader : Nat := {clu['skip_header']}\n")
+    o.append(f"def cluParserSkipHeader : Nat := {clu['skip_header']}")
+    o.append("def cluParserDtypes : List Dtype := [" + ", ".join(lean_dtype(x) for x in clu["dtype"]) + "]")
+    o.append("def cluParserComment : Char := " + lean_char(clu["comments"]))
+    o.append("def cluParserAutostrip : Bool := " + str(clu["autostrip"]).lower() + "\n")
     o.append("/-- SinexField(name, start_col) of parsers/sinex_tms.py TIMESERIES/REF_COORDINATE -/\n"
              "def tmsRefCoordFields : List (String × Nat) := " + lean_list([f"({ls(a)}, {b})" for a, b in refc]) + "\n")
     o.append("def tmsColumnsFields : List (String × Nat) := " + lean_list([f"({ls(a)}, {b})" for a, b in cols]) + "\n")
@@ -318,7 +388,7 @@ def generate() -> Tuple[str, Dict[str, Any]]:
     o.append("/-- `plate_def` of writers/bernese_vel.py -/\n"
              "def velPlateDef : List (String × String) := " + lean_list([f"({ls(a)}, {ls(b)})" for a, b in plate_def()]) + "\n")
     o.append("end Midgard.Generated.WriterLayouts\n")
-    info = {"rows": rows, "data_types": dts, "data_field_types": dft, "estimate": est, "estimate_duplicates": dup,
+    info = {"headers": headers, "rows": rows, "data_types": dts, "data_field_types": dft, "estimate": est, "estimate_duplicates": dup,
             "crd": crd, "clu": clu, "refc": refc, "cols": cols, "sta": sta}
     return "\n".join(o), info
 
